@@ -4,7 +4,7 @@ from . import proc_common as PC
 from .inbox_common import TRUSTED_BASE, ASSUMPTIONS
 
 COQ_FILES = IC.COQ_FILES + ["Proc.v", "ProcExec.v", "ProcProofs.v", "PropsProc.v"]
-THEOREMS = ["C01_conservation", "C01_conservation_pill_free", "C01_program_order", "C01_program_order_delivered", "C01_exactly_once_in_order", "C01_delivered_permutation", "C0123_oracle_sound", "C14_ring_refines_fifo", "C05_delivered_in_send_order_exactly_once", "C13_context_shows_sender"]
+THEOREMS = ["C01_conservation", "C01_conservation_pill_free", "C01_program_order", "C01_program_order_delivered", "C01_exactly_once_in_order", "C01_delivered_permutation", "C0123_oracle_sound", "C14_ring_refines_fifo", "C05_delivered_in_send_order_exactly_once", "C13_context_shows_sender", "C01_happens_before_order", "C01_conservation_over_ring", "C01_exactly_once_in_order_over_ring", "C01_happens_before_order_self", "C01_ring_same_runs"]
 RULE = ("configurations (senders x numbered messages, capacity 1-2, Start racing or not, optional pill) of the real "
         "actor/inbox.go run under the deterministic scheduler: all schedules by DFS with visited-state pruning for the small "
         "ones, seeded random walks for the larger; each kept execution is replayed step by step in the Coq model and every "
